@@ -229,6 +229,20 @@ def run_case(case, ctx):
             if not np.allclose(Jfd, Jc, rtol=1e-5, atol=1e-7):
                 mech['points_discarded'] = mech.get('points_discarded', 0) + 1
                 continue
+            # conditioning: a point where an intermediate quantity of the model is astronomically large (exp(exp(..)) ~ 1e200, whose
+            # contribution then underflows to 0 in the vector field) cannot be differentiated in floating point - the exact derivative
+            # 0 is formed as inf * 0 by ANY evaluation of the chain rule
+            try:
+                hk = (lambda key, tq: float(hvec(tq)[pos[key]])) if mode == 'dde' else None
+                _, val_ = ref.rhs({k: float(y[i]) for k, i in pos.items()}, ref.p0(), t=t, hist=hk)
+                big = max([abs(float(v)) for v in val_.memo.values()] or [0.0])
+            except (OverflowError, ZeroDivisionError, ValueError):
+                big = float('inf')
+            except Exception:
+                big = 0.0
+            if not big < 1e60:
+                mech['points_discarded_overflow'] = mech.get('points_discarded_overflow', 0) + 1
+                continue
             try:
                 out = J(t, y.copy(), *jargs[2:])
             except Exception as e:
